@@ -165,6 +165,18 @@ func (d *Document) AddListItem(text string, config *ListConfig) *Paragraph {
 		}
 	}
 
+	// 编号定义只有 0-8 九个级别：越界的缩进级别收敛到最近的有效级别，
+	// 否则段落引用的级别在编号定义中不存在（不修改调用者传入的配置）
+	if config.IndentLevel < 0 || config.IndentLevel > 8 {
+		clamped := *config
+		if clamped.IndentLevel < 0 {
+			clamped.IndentLevel = 0
+		} else {
+			clamped.IndentLevel = 8
+		}
+		config = &clamped
+	}
+
 	// 确保编号管理器已初始化
 	d.ensureNumberingInitialized()
 
@@ -277,7 +289,9 @@ func (d *Document) getOrCreateNumbering(config *ListConfig) string {
 	manager := d.getNumberingManager()
 
 	// 生成抽象编号键
-	abstractKey := fmt.Sprintf("%s_%s_%d", config.Type, config.BulletSymbol, config.IndentLevel)
+	// 起始编号写在抽象编号的每个级别里，所以也是键的一部分：
+	// 否则起始编号不同的列表会复用第一个定义
+	abstractKey := fmt.Sprintf("%s_%s_%d_%d", config.Type, config.BulletSymbol, config.IndentLevel, config.StartNumber)
 
 	// 检查是否已存在抽象编号
 	var abstractNum *AbstractNum
